@@ -553,6 +553,29 @@ Proof.
     rewrite spec_flows_model. reflexivity.
 Qed.
 
+(* plain http needs the opt-in however the scheme is spelled (HTTP://, Http://, hTTp:// ...), for every
+   issuer string whose url.Parse oracle agrees with its spelling (wf) *)
+Lemma http_any_spelling_needs_opt_in api raw hostless o :
+  (api = ApiValidate \/ api = ApiNewProvider) ->
+  wf (IIssuer api raw hostless o false) = true -> starts_with_http raw = true ->
+  validate_issuer raw o false <> IssOk.
+Proof.
+  intros Hapi Hwf Hh V.
+  assert (Hs : spec (IIssuer api raw hostless o false) (model (IIssuer api raw hostless o false)) = true)
+    by (apply spec_model; exact Hwf).
+  cbn [spec model] in Hs.
+  assert (B : bad_issuer api raw hostless false = true).
+  { destruct Hapi as [-> | ->]; cbn [bad_issuer]; rewrite Hh; cbn; apply orb_true_r. }
+  rewrite B in Hs. destruct Hapi as [-> | ->]; rewrite V in Hs; discriminate.
+Qed.
+
+Example http_any_spelling_nonvacuous :
+  starts_with_http "HTTP://op.example.com" = true /\ starts_with_http "hTTp://op.example.com" = true
+  /\ starts_with_http "https://op.example.com" = false /\ starts_with_http "xhttp://op" = false
+  /\ validate_issuer "Http://op.example.com" (mkOracle "http" "op.example.com" false) false = IssHTTPS
+  /\ validate_issuer "Http://op.example.com" (mkOracle "http" "op.example.com" false) true = IssOk.
+Proof. repeat split; reflexivity. Qed.
+
 Lemma nil_endpoint_both r c q n :
   (ep_of (c_eps c) n = EpNil -> doc_endpoint r c q n = None /\ forall p, ~ In (Some n, p) (routes r c))
   /\ (doc_endpoint r c q n = None -> ep_of (c_eps c) n = EpNil).
